@@ -6,6 +6,8 @@ import (
 	"strings"
 
 	"github.com/mmcloughlin/avo/attr"
+	"github.com/mmcloughlin/avo/build"
+	"github.com/mmcloughlin/avo/gotypes"
 	"github.com/mmcloughlin/avo/ir"
 	"github.com/mmcloughlin/avo/operand"
 	"github.com/mmcloughlin/avo/pass"
@@ -26,6 +28,14 @@ import (
 // and a measured end-to-end sample: functions compiled by pass.Compile are
 // printed, assembled, and called through a trampoline that compares the
 // caller's BP before and after.
+//
+// Every generated function is described by a c15Spec (seeds + options) from
+// which it can be rebuilt identically: the same function is sent through the
+// explicit pass sequence, through pass.Compile alone, through pass.Compile as
+// one of several functions of a file (built directly as ir.File or through
+// build.Context, with and without arguments), and - when Compile refuses -
+// through Compile once more with the NOFRAME bit cleared (control experiment:
+// was it the NOFRAME bit that caused the refusal?).
 
 const c15LeafRef = "·c15leaf(SB)"
 
@@ -51,7 +61,15 @@ func c15BPWrite(r *rng, src reg.Register) *ir.Instruction {
 		}
 		return asSpec(reg.RAX, s)
 	}
-	switch r.intn(16) {
+	switch r.intn(20) {
+	case 16: // BP as the SECOND output register of the instruction
+		return c15Inst("XCHGQ", v(reg.S64), srcOf(reg.S64))
+	case 17:
+		return c15Inst("XADDQ", srcOf(reg.S64), v(reg.S64))
+	case 18:
+		return c15Inst("XCHGW", srcOf(reg.S16), v(reg.S16))
+	case 19:
+		return c15Inst("XCHGB", srcOf(reg.S8L), v(reg.S8L))
 	case 0:
 		return c15Inst("MOVQ", operand.I32(0x5a5a5a), v(reg.S64))
 	case 1:
@@ -178,7 +196,7 @@ func c15GenDirect(r *rng, name string) (*ir.Function, c15Meta) {
 // c15GenRandom uses the shared random function generator under GP pressure and
 // then forces author-named BP writes into it.
 func c15GenRandom(r *rng, db *formsDB, tier string) (*ir.Function, c15Meta) {
-	cfg := allocGenCfg(r, tier)
+	cfg := c15GenCfg(r, tier)
 	switch r.intn(3) {
 	case 0:
 		cfg.nGP = 12 + r.intn(5)
@@ -208,6 +226,29 @@ func c15GenRandom(r *rng, db *formsDB, tier string) (*ir.Function, c15Meta) {
 	return fn, m
 }
 
+// c15GenCfg: shape of the random functions (GP-heavy: this property is about a general-purpose register).
+func c15GenCfg(r *rng, tier string) genCfg {
+	cfg := genCfg{minInstr: 2, maxInstr: 6 + r.intn(50), physPct: r.intn(35), branchPct: r.intn(25),
+		randomFormPct: 15, strict: !r.chance(1, 6)}
+	cfg.pressureTail = r.chance(1, 3)
+	switch r.intn(5) {
+	case 0:
+		cfg.nGP = 10 + r.intn(12)
+		cfg.pressureTail = r.chance(2, 3)
+	case 1:
+		cfg.nVec, cfg.nK, cfg.nGP = r.intn(20), r.intn(6), 1+r.intn(4)
+	case 2: // byte registers incl. high bytes
+		cfg.nGP = 3 + r.intn(8)
+		cfg.opcodes = []string{"MOVB", "ADDB", "XORB", "MOVBQZX", "MOVBLZX", "XCHGB", "MOVQ", "ADDQ", "SETEQ", "MOVW", "MOVL"}
+	default:
+		cfg.nGP, cfg.nVec, cfg.nK = 1+r.intn(9), r.intn(6), r.intn(3)
+	}
+	if tier == "thorough" && r.chance(1, 25) {
+		cfg.maxInstr = 100 + r.intn(300)
+	}
+	return cfg
+}
+
 // c15Insert puts inst at a random position before the last node.
 func c15Insert(r *rng, fn *ir.Function, inst *ir.Instruction) {
 	n := len(fn.Nodes)
@@ -220,7 +261,14 @@ func c15Insert(r *rng, fn *ir.Function, inst *ir.Instruction) {
 	fn.Nodes[p] = inst
 }
 
-func c15LocalSize(r *rng, aligned bool, nosplit bool) int {
+// c15WrapFrames: declared frames the assembler's int32 truncation changes (finding F18): 2^31 and 2^32-8 read as
+// negative (no frame), 2^32 as 0, 2^32+8 as 8.
+var c15WrapFrames = []int{1 << 31, 1<<31 + 8, 3 << 30, 1<<32 - 8, 1 << 32, 1<<32 + 8, 1<<32 + 4096, 1<<33 + 16}
+
+func c15LocalSize(r *rng, aligned bool, nosplit bool, executable bool) int {
+	if !executable && r.chance(1, 16) {
+		return pick(r, c15WrapFrames)
+	}
 	switch r.intn(10) {
 	case 0, 1, 2, 3:
 		return 0
@@ -270,14 +318,15 @@ func c15IsHWBP(r reg.Register) bool {
 	return id.IsPhysical() && id.Kind() == reg.KindGP && id.Index() == 5
 }
 
-func c15ClassifyErr(err error, panicked bool) string {
-	if panicked {
+// c15Outcome: error versus no error (the message is not compared: the property asks for "an error").
+func c15Outcome(fn *ir.Function, err error, panicked bool) string {
+	switch {
+	case panicked:
 		return "panic"
+	case err != nil:
+		return "err"
 	}
-	if strings.Contains(err.Error(), "NOFRAME") {
-		return "err noframe"
-	}
-	return "err other:" + strings.ReplaceAll(err.Error(), " ", "_")
+	return "ok " + itoa(fn.LocalSize)
 }
 
 // c15Ensure runs the real pass on fn and emits the model request and the acceptor.
@@ -293,15 +342,18 @@ func c15Ensure(o *out, fn *ir.Function, stats map[string]int) (ok bool, clob boo
 		}
 	}
 	err, panicked := safely(func() error { return pass.EnsureBasePointerCalleeSaved(fn) })
-	outcome := "ok " + itoa(fn.LocalSize)
-	if err != nil {
-		outcome = c15ClassifyErr(err, panicked)
-	}
+	outcome := c15Outcome(fn, err, panicked)
 	body := fmt.Sprintf("%d %d", attrs, ls)
 	regs := encRegs(outs)
 	o.emit("bp "+body+" "+regs, outcome)
 	o.emit("accept-bp "+body+" "+b01(hasCall)+" "+regs+" => "+outcome, "ok")
 	stats["ensure_requests"]++
+	if clob {
+		stats["ensure_clobbered"]++
+	}
+	if ls >= 1<<31 {
+		stats["ensure_frame_ge_2^31"]++
+	}
 	key := "ensure:"
 	if clob {
 		key += "clobbered"
@@ -315,9 +367,7 @@ func c15Ensure(o *out, fn *ir.Function, stats map[string]int) (ok bool, clob boo
 		key += "frame+"
 	}
 	key += ":call" + b01(hasCall) + " => " + strings.Fields(outcome)[0]
-	if err != nil {
-		key += " " + strings.Fields(outcome)[1]
-	} else if fn.LocalSize != ls {
+	if err == nil && fn.LocalSize != ls {
 		key += " grown"
 	}
 	stats[key]++
@@ -330,7 +380,7 @@ func c15Prepare(r *rng, fn *ir.Function, executable bool) {
 	if !executable && r.chance(1, 5) {
 		fn.Attributes |= attr.Attribute(r.u64() & 0xffff)
 	}
-	if ls := c15LocalSize(r, executable || r.chance(3, 4), fn.Attributes.NOSPLIT()); ls > 0 {
+	if ls := c15LocalSize(r, executable || r.chance(3, 4), fn.Attributes.NOSPLIT(), executable); ls > 0 {
 		if r.chance(1, 3) && ls >= 16 && ls%16 == 0 {
 			fn.AllocLocal(ls / 2)
 			fn.AllocLocal(ls / 2)
@@ -347,67 +397,334 @@ func c15Prepare(r *rng, fn *ir.Function, executable bool) {
 	}
 }
 
-// c15Compile runs the real passes up to VerifyAllocation. ok=false: not a
-// function Compile would get as far as the pass under test with.
-func c15Compile(fn *ir.Function, stats map[string]int) bool {
-	c, ok := runAllocPipeline(fn)
-	if !ok {
-		stats["rejected_before_allocation"]++
-		return false
+// c15Spec describes a generated function reproducibly: c15Make(spec) always returns the same function.
+type c15Spec struct {
+	seed         uint64
+	direct       bool   // straight-line generator (else the shared random generator)
+	executable   bool   // aligned, small frames
+	name         string // function name
+	sig          string // signature expression ("" = none): exercises the `$frame-args` branch of the printer
+	clearNoframe bool   // control experiment: the same function without the NOFRAME bit
+}
+
+var c15Sigs = []string{"", "", "func(x uint64) uint64", "func(a, b uint64)", "func(p *byte, n int) (r uint64, ok bool)"}
+
+func c15NewSpec(r *rng, name string) c15Spec {
+	return c15Spec{seed: r.u64(), direct: r.chance(1, 2), name: name, sig: pick(r, c15Sigs)}
+}
+
+func c15Make(s c15Spec, db *formsDB, tier string) (*ir.Function, c15Meta) {
+	r := &rng{s: s.seed}
+	var fn *ir.Function
+	var m c15Meta
+	if s.direct {
+		fn, m = c15GenDirect(r.fork(), s.name)
+	} else {
+		fn, m = c15GenRandom(r.fork(), db, tier)
+		fn.Name = s.name
 	}
-	if !strings.HasPrefix(c.outcome, "ok") {
-		stats["allocation:"+c.outcome]++
-		return false
+	c15Prepare(r, fn, s.executable)
+	if s.clearNoframe {
+		fn.Attributes &^= attr.NOFRAME
 	}
-	stats["allocation:ok"]++
+	if s.sig != "" {
+		if sig, err := gotypes.ParseSignature(s.sig); err == nil {
+			fn.SetSignature(sig)
+		}
+	}
+	return fn, m
+}
+
+// c15Pipeline runs the real passes one by one up to VerifyAllocation.  Returns "ok", "pre_error" (refused before
+// allocation), "alloc_error" (allocation, binding or its verification failed) or "panic".
+func c15Pipeline(fn *ir.Function, stats map[string]int) string {
+	err, panicked := safely(func() error {
+		if err := pass.LabelTarget(fn); err != nil {
+			return err
+		}
+		if err := pass.CFG(fn); err != nil {
+			return err
+		}
+		for _, i := range fn.Instructions() {
+			if err := pass.ZeroExtend32BitOutputs(i); err != nil {
+				return err
+			}
+		}
+		return pass.Liveness(fn)
+	})
+	if panicked {
+		return "panic"
+	}
+	if err != nil {
+		return "pre_error"
+	}
+	err, panicked = safely(func() error {
+		if err := pass.AllocateRegisters(fn); err != nil {
+			return err
+		}
+		if err := pass.BindRegisters(fn); err != nil {
+			return err
+		}
+		return pass.VerifyAllocation(fn)
+	})
+	if panicked {
+		return "panic"
+	}
+	if err != nil {
+		return "alloc_error"
+	}
 	for _, p := range fn.Allocation {
 		if p == reg.RBP.ID() {
 			stats["allocator_chose_bp"]++
 			break
 		}
 	}
-	return true
+	return "ok"
 }
 
-// c15CompileWhole runs the real pass.Compile on a one-function file and states the
-// property on what comes out (no exact model line: the state between the passes
-// is not observable here).  ok=false: Compile failed for a reason that is not
-// this property's business, or refused the function.
-func c15CompileWhole(o *out, fn *ir.Function, stats map[string]int) (ok bool, clob bool) {
-	attrs := int(fn.Attributes)
-	ls := fn.LocalSize
+// c15PrepLiveness: LabelTarget, CFG, ZeroExtend32BitOutputs only (malformed stream).
+func c15PrepLiveness(fn *ir.Function) bool {
+	err, _ := safely(func() error {
+		if err := pass.LabelTarget(fn); err != nil {
+			return err
+		}
+		if err := pass.CFG(fn); err != nil {
+			return err
+		}
+		for _, i := range fn.Instructions() {
+			if err := pass.ZeroExtend32BitOutputs(i); err != nil {
+				return err
+			}
+		}
+		return nil
+	})
+	return err == nil
+}
+
+// c15ViaContext rebuilds the functions through a fresh build.Context (attributes, signature, AllocLocal, nodes).
+func c15ViaContext(fns []*ir.Function) (*ir.File, error) {
+	ctx := build.NewContext()
+	for _, fn := range fns {
+		ctx.Function(fn.Name)
+		ctx.Attributes(fn.Attributes)
+		if fn.Signature != nil && fn.Signature.Bytes() > 0 {
+			ctx.Signature(fn.Signature)
+		}
+		if fn.LocalSize != 0 {
+			ctx.AllocLocal(fn.LocalSize)
+		}
+		for _, n := range fn.Nodes {
+			switch n := n.(type) {
+			case *ir.Instruction:
+				ctx.Instruction(n)
+			case ir.Label:
+				ctx.Label(string(n))
+			case *ir.Comment:
+				ctx.Comment(n.Lines...)
+			}
+		}
+	}
+	return ctx.Result()
+}
+
+// c15BuildFile makes the file of the specs: directly as ir.File, or through build.Context.
+func c15BuildFile(specs []c15Spec, viaCtx bool, db *formsDB, tier string) (*ir.File, error) {
+	var fns []*ir.Function
+	for _, s := range specs {
+		fn, _ := c15Make(s, db, tier)
+		fns = append(fns, fn)
+	}
+	if viaCtx {
+		return c15ViaContext(fns)
+	}
 	file := ir.NewFile()
-	file.AddSection(fn)
-	err, panicked := safely(func() error { return pass.Compile.Execute(file) })
-	outcome := "ok " + itoa(fn.LocalSize)
+	for _, fn := range fns {
+		file.AddSection(fn)
+	}
+	return file, nil
+}
+
+// c15TextSizes prints the file with the real Go assembly printer and returns the size token (`$frame[-args]`) of
+// every TEXT line, by function name.
+func c15TextSizes(file *ir.File) (map[string]string, []byte, error) {
+	var asm []byte
+	err, panicked := safely(func() error {
+		var e error
+		asm, e = printer.NewGoAsm(printer.Config{Name: "avoh", Pkg: "main"}).Print(file)
+		return e
+	})
+	if panicked {
+		return nil, nil, fmt.Errorf("printer panicked")
+	}
 	if err != nil {
-		outcome = c15ClassifyErr(err, panicked)
-		if !panicked && outcome != "err noframe" {
-			stats["compile:other_error"]++
-			return false, false
-		}
+		return nil, nil, err
 	}
-	hasCall := c15HasCall(fn)
-	outs := c15Outs(fn)
-	for _, r := range outs {
-		if reg.ToPhysical(r) == nil {
-			// refused before binding: nothing to judge
-			stats["compile:unbound_at_error"]++
-			return false, false
+	sizes := map[string]string{}
+	for _, line := range strings.Split(string(asm), "\n") {
+		if !strings.HasPrefix(line, "TEXT ·") {
+			continue
 		}
-		if c15IsHWBP(r) {
-			clob = true
+		name := strings.TrimPrefix(line, "TEXT ·")
+		if i := strings.Index(name, "(SB)"); i >= 0 {
+			name = name[:i]
 		}
+		fs := strings.Split(line, ", ")
+		sizes[name] = strings.TrimSpace(fs[len(fs)-1])
 	}
-	o.emit(fmt.Sprintf("accept-bp %d %d %s %s => %s", attrs, ls, b01(hasCall), encRegs(outs), outcome), "ok")
-	stats["compile:"+strings.Fields(outcome)[0]+":clobbered"+b01(clob)]++
-	for _, p := range fn.Allocation {
-		if p == reg.RBP.ID() {
-			stats["compile:allocator_chose_bp"]++
+	return sizes, asm, nil
+}
+
+type c15Compiled struct {
+	file   *ir.File
+	fns    []*ir.Function
+	clob   []bool
+	asm    []byte
+	judged int
+}
+
+// c15CompileFile sends the functions of the specs through the real pass.Compile as ONE file and states the property
+// on what comes out: for every function the acceptor line with its bound output registers, the resulting LocalSize
+// and the size token of its printed TEXT line.  When Compile refuses the file, a control experiment (same specs,
+// NOFRAME bits cleared) decides whether it was the NOFRAME bit that caused the refusal: if so some function of the
+// file must be NOFRAME and write BP (judged by the acceptor); if not, the refusal is not this property's (counted).
+func c15CompileFile(o *out, specs []c15Spec, viaCtx bool, db *formsDB, tier string, stats map[string]int, tag string) *c15Compiled {
+	route := "file"
+	if viaCtx {
+		route = "ctx"
+	}
+	stats[tag+":files:"+route]++
+	stats[tag+":functions"] += len(specs)
+	// what the functions looked like before compilation
+	type pre struct {
+		attrs, ls int
+	}
+	var before []pre
+	for _, s := range specs {
+		fn, _ := c15Make(s, db, tier)
+		before = append(before, pre{int(fn.Attributes), fn.LocalSize})
+	}
+	compile := func(specs []c15Spec) (*ir.File, error, bool) {
+		file, err := c15BuildFile(specs, viaCtx, db, tier)
+		if err != nil {
+			return nil, err, false
+		}
+		err, panicked := safely(func() error { return pass.Compile.Execute(file) })
+		return file, err, panicked
+	}
+	file, err, panicked := compile(specs)
+	if panicked {
+		o.emit(fmt.Sprintf("accept-bp %d %d 0 0 => panic", before[0].attrs, before[0].ls), "ok")
+		stats[tag+":panic"]++
+		return nil
+	}
+	if err != nil {
+		ctl := make([]c15Spec, len(specs))
+		for i, s := range specs {
+			s.clearNoframe = true
+			ctl[i] = s
+		}
+		cfile, cerr, cpanicked := compile(ctl)
+		if cerr != nil || cpanicked || cfile == nil {
+			// refused whatever the NOFRAME bits: not the refusal this property speaks about (nothing is emitted)
+			stats[tag+":refused_regardless_of_noframe"]++
+			allok := true
+			for _, s := range ctl {
+				fn, _ := c15Make(s, db, tier)
+				if c15Pipeline(fn, map[string]int{}) != "ok" {
+					allok = false
+					break
+				}
+				if e, p := safely(func() error { return pass.EnsureBasePointerCalleeSaved(fn) }); e != nil || p {
+					allok = false
+					break
+				}
+			}
+			if allok {
+				stats[tag+":refusal_unexplained_by_pass_sequence"]++
+			}
+			return nil
+		}
+		// the NOFRAME bits caused the refusal: some NOFRAME function must write BP
+		stats[tag+":refused_because_of_noframe"]++
+		cfns := cfile.Functions()
+		pickFn := -1
+		for i, fn := range cfns {
+			if i >= len(before) || attr.Attribute(before[i].attrs)&attr.NOFRAME == 0 {
+				continue
+			}
+			if pickFn < 0 {
+				pickFn = i
+			}
+			cl := false
+			for _, r := range c15Outs(fn) {
+				cl = cl || c15IsHWBP(r)
+			}
+			if cl {
+				pickFn = i
+				break
+			}
+		}
+		if pickFn < 0 {
+			pickFn = 0
+		}
+		fn := cfns[pickFn]
+		o.emit(fmt.Sprintf("accept-bp %d %d %s %s => err", before[pickFn].attrs, before[pickFn].ls, b01(c15HasCall(fn)), encRegs(c15Outs(fn))), "ok")
+		stats[tag+":judged_refusals"]++
+		return nil
+	}
+	fns := file.Functions()
+	sizes, asm, perr := c15TextSizes(file)
+	if perr != nil {
+		stats[tag+":print_error"]++
+	}
+	res := &c15Compiled{file: file, fns: fns, asm: asm}
+	for i, fn := range fns {
+		if i >= len(before) {
 			break
 		}
+		outs := c15Outs(fn)
+		cl := false
+		bound := true
+		for _, r := range outs {
+			if reg.ToPhysical(r) == nil {
+				bound = false
+			}
+			cl = cl || c15IsHWBP(r)
+		}
+		res.clob = append(res.clob, cl)
+		if !bound {
+			// Compile succeeded and left a virtual register: not judged here (C01), counted
+			stats[tag+":unbound_after_compile"]++
+			continue
+		}
+		line := fmt.Sprintf("accept-bp %d %d %s %s => ok %d", before[i].attrs, before[i].ls, b01(c15HasCall(fn)), encRegs(outs), fn.LocalSize)
+		if t, ok := sizes[fn.Name]; ok && perr == nil {
+			line += " " + t
+			stats[tag+":judged_text_lines"]++
+			if fn.ArgumentBytes() > 0 {
+				stats[tag+":judged_text_lines_with_args"]++
+			}
+		}
+		o.emit(line, "ok")
+		res.judged++
+		stats[tag+":judged_functions"]++
+		if cl {
+			stats[tag+":judged_clobbering"]++
+		}
+		if fn.LocalSize >= 1<<31 {
+			stats[tag+":frame_ge_2^31"]++
+		}
+		for _, p := range fn.Allocation {
+			if p == reg.RBP.ID() {
+				stats[tag+":allocator_chose_bp"]++
+				break
+			}
+		}
 	}
-	return err == nil, clob
+	if len(fns) > 1 {
+		stats[tag+":judged_multi_function_files"]++
+	}
+	return res
 }
 
 // c15FromRequest rebuilds a function from a `bp`/`accept-bp` request line (replay / corpus).
@@ -498,44 +815,71 @@ func init() {
 			return err
 		}
 		r := newRng(*f.seed)
+		// fixed cases first: the witnesses of finding F18 (a frame the assembler truncates) through every route
+		for _, ls := range []int{1 << 31, 1<<32 + 8} {
+			for _, a := range []attr.Attribute{0, attr.NOSPLIT} {
+				fn := c15WrapWitness("f", a, ls)
+				c15Pipeline(fn, stats)
+				c15Ensure(o, fn, stats)
+			}
+		}
 		for k := 0; k < *f.n; k++ {
-			var fn *ir.Function
-			var m c15Meta
-			if r.chance(1, 2) {
-				fn, m = c15GenDirect(r.fork(), "f")
-			} else {
-				fn, m = c15GenRandom(r.fork(), db, *f.tier)
-			}
-			c15Prepare(r, fn, false)
-			stats["generated:"+m.gen]++
-			if m.authorBP > 0 {
-				stats["author_named_bp"]++
-			}
-			if r.chance(1, 20) {
+			spec := c15NewSpec(r, "f")
+			mode := r.intn(20)
+			switch {
+			case mode == 0:
 				// malformed stream: the pass on a function that was never allocated
 				// (virtual registers are not physical, hence never counted)
 				// half of them without ZeroExtend32BitOutputs either: a write to EBP is then
 				// still the 32-bit view when the pass looks at it
+				fn, _ := c15Make(spec, db, *f.tier)
 				if r.chance(1, 2) {
 					stats["raw_functions"]++
 					c15Ensure(o, fn, stats)
-				} else if prepLiveness(fn) {
+				} else if c15PrepLiveness(fn) {
 					stats["unallocated_functions"]++
 					c15Ensure(o, fn, stats)
 				}
-				continue
+			case mode <= 3:
+				// one function through the whole pass.Compile
+				c15CompileFile(o, []c15Spec{spec}, r.chance(1, 2), db, *f.tier, stats, "compile1")
+			case mode <= 6:
+				// several functions in one file through the whole pass.Compile: most of them from the
+				// straight-line generator with at most 15 live values (they compile), so that the file as a
+				// whole is usually accepted unless a NOFRAME function writes BP
+				n := 2 + r.intn(3)
+				specs := make([]c15Spec, n)
+				for j := range specs {
+					specs[j] = c15NewSpec(r, fmt.Sprintf("f%d", j))
+					if !r.chance(1, 6) {
+						specs[j].direct = true
+					}
+					if r.chance(2, 3) {
+						// fewer NOFRAME functions than in the single-function streams: one NOFRAME function that
+						// writes BP makes Compile refuse the whole file
+						specs[j].clearNoframe = true
+					}
+				}
+				c15CompileFile(o, specs, r.chance(1, 2), db, *f.tier, stats, "compileN")
+			default:
+				fn, m := c15Make(spec, db, *f.tier)
+				stats["generated:"+m.gen]++
+				if m.authorBP > 0 {
+					stats["author_named_bp"]++
+				}
+				switch st := c15Pipeline(fn, stats); st {
+				case "ok":
+					stats["allocation:ok"]++
+					c15Ensure(o, fn, stats)
+				case "panic":
+					o.emit(fmt.Sprintf("accept-bp %d %d 0 0 => panic", int(fn.Attributes), fn.LocalSize), "ok")
+				default:
+					stats["allocation:"+st]++
+				}
 			}
-			if r.chance(1, 4) {
-				c15CompileWhole(o, fn, stats)
-				continue
-			}
-			if !c15Compile(fn, stats) {
-				continue
-			}
-			c15Ensure(o, fn, stats)
 		}
 		if *nexec > 0 {
-			if err := c15Exec(o, r.fork(), *nexec, *execdir, stats); err != nil {
+			if err := c15Exec(o, r.fork(), *nexec, *execdir, db, *f.tier, stats); err != nil {
 				// do not lose the verdicts of the lines already written: report the failed execution sample as a
 				// request no handler accepts (the acceptor lines above carry any concrete violation)
 				stats["exec_sample_error"]++
@@ -546,58 +890,102 @@ func init() {
 	})
 }
 
+// c15WrapWitness: `MOVQ $0x5a5a5a, BP; RET` with AllocLocal(ls).
+func c15WrapWitness(name string, a attr.Attribute, ls int) *ir.Function {
+	fn := ir.NewFunction(name)
+	fn.Attributes = a
+	fn.AllocLocal(ls)
+	fn.AddInstruction(c15Inst("MOVQ", operand.I32(0x5a5a5a), reg.RBP))
+	fn.AddInstruction(c15Inst("RET"))
+	return fn
+}
+
 type c15ExecFn struct {
-	fn      *ir.Function
+	name    string
+	attrs   int
+	frame   int
 	clob    bool
 	hasCall bool
 }
 
-// c15Exec: measured end-to-end sample.
-func c15Exec(o *out, r *rng, n int, dir string, stats map[string]int) error {
-	file := ir.NewFile()
-	var fns []c15ExecFn
-	for tries := 0; len(fns) < n && tries < 40*n+200; tries++ {
-		fn, _ := c15GenDirect(r.fork(), fmt.Sprintf("c15x%d", len(fns)))
-		c15Prepare(r, fn, true)
+// c15Exec: measured end-to-end sample.  The functions are compiled TOGETHER as one file by pass.Compile (half of the
+// runs through build.Context), printed, built and called.
+func c15Exec(o *out, r *rng, n int, dir string, db *formsDB, tier string, stats map[string]int) error {
+	var specs []c15Spec
+	nclob := 0
+	for tries := 0; len(specs) < n && tries < 40*n+200; tries++ {
+		spec := c15Spec{seed: r.u64(), direct: true, executable: true, name: fmt.Sprintf("c15x%d", len(specs)), sig: pick(r, c15Sigs)}
+		fn, _ := c15Make(spec, db, tier)
 		if fn.Attributes.NOSPLIT() && fn.LocalSize > 512 {
 			continue // the linker limits NOSPLIT frames (Oracle/AsmBP records the rejection)
 		}
-		ok, clob := c15CompileWhole(o, fn, stats)
-		if !ok {
+		// screening on a twin, alone: functions Compile refuses (NOFRAME writing BP, 16 live values) would take the
+		// whole file with them; they are judged by the other streams
+		file := ir.NewFile()
+		file.AddSection(fn)
+		if err, panicked := safely(func() error { return pass.Compile.Execute(file) }); err != nil || panicked {
 			continue
+		}
+		clob := false
+		for _, x := range c15Outs(fn) {
+			clob = clob || c15IsHWBP(x)
 		}
 		// keep the sample rich in the interesting case
 		if !clob && r.chance(2, 3) {
 			continue
 		}
-		file.AddSection(fn)
-		fns = append(fns, c15ExecFn{fn: fn, clob: clob, hasCall: c15HasCall(fn)})
+		if clob {
+			nclob++
+		}
+		specs = append(specs, spec)
 	}
-	if len(fns) == 0 {
+	if len(specs) == 0 {
 		return fmt.Errorf("exec sample: no function compiled")
 	}
-	if err := pass.IncludeTextFlagHeader(file); err != nil {
-		return err
+	res := c15CompileFile(o, specs, r.chance(1, 2), db, tier, stats, "exec")
+	if res == nil || res.asm == nil || len(res.fns) != len(specs) {
+		return fmt.Errorf("exec sample: the functions compile one by one but not as one file")
+	}
+	// the witness of finding F18, compiled and printed by the same route, in a file of its own (so that a future
+	// refusal of such frames by avo does not take the sample with it)
+	wfile := ir.NewFile()
+	wfn := c15WrapWitness("c15wrap", 0, 1<<31)
+	wfile.AddSection(wfn)
+	var wasm []byte
+	if err, panicked := safely(func() error { return pass.Compile.Execute(wfile) }); err == nil && !panicked {
+		if sizes, a, err := c15TextSizes(wfile); err == nil {
+			wasm = a
+			o.emit(fmt.Sprintf("accept-bp 0 %d 0 %s => ok %d %s", 1<<31, encRegs(c15Outs(wfn)), wfn.LocalSize, sizes["c15wrap"]), "ok")
+			stats["exec:wrap_witness_compiled"]++
+		}
+	} else {
+		stats["exec:wrap_witness_refused"]++
 	}
 	cfg := printer.Config{Name: "avoh", Pkg: "main"}
-	asm, err := printer.NewGoAsm(cfg).Print(file)
-	if err != nil {
-		return fmt.Errorf("exec sample: printing: %v", err)
-	}
-	stubs, err := printer.NewStubs(cfg).Print(file)
+	stubs, err := printer.NewStubs(cfg).Print(res.file)
 	if err != nil {
 		return fmt.Errorf("exec sample: stubs: %v", err)
 	}
+	var fns []c15ExecFn
+	for i, fn := range res.fns {
+		fns = append(fns, c15ExecFn{name: fn.Name, attrs: int(fn.Attributes), frame: fn.LocalSize, clob: res.clob[i], hasCall: c15HasCall(fn)})
+	}
+	extra := map[string]string{"fn_amd64.s": string(res.asm), "stubs.go": string(stubs)}
+	if wasm != nil {
+		fns = append(fns, c15ExecFn{name: "c15wrap", attrs: 0, frame: wfn.LocalSize, clob: true})
+		extra["wrap_amd64.s"] = string(wasm)
+		extra["wrap.go"] = "package main\n\nfunc c15wrap()\n"
+	}
 	names := make([]string, len(fns))
 	for i, f := range fns {
-		names[i] = f.fn.Name
+		names[i] = f.name
 	}
 	// positive control of the measurement (hand-written, not avo output): a frameless
 	// leaf that sets BP must be reported as "changed"
 	names = append(names, "c15ctl")
-	ctl := c15GridFn("c15ctl", 4|512, 0, false, true)
-	if err := c15WriteModule(dir, names, map[string]string{"fn_amd64.s": string(asm), "stubs.go": string(stubs),
-		"ctl_amd64.s": ctl, "ctl.go": "package main\n\nfunc c15ctl()\n"}); err != nil {
+	extra["ctl_amd64.s"] = c15GridFn("c15ctl", 4|512, 0, false, true)
+	extra["ctl.go"] = "package main\n\nfunc c15ctl()\n"
+	if err := c15WriteModule(dir, names, extra); err != nil {
 		return err
 	}
 	if outp, err := c15Build(dir); err != nil {
@@ -639,7 +1027,7 @@ func c15Exec(o *out, r *rng, n int, dir string, stats map[string]int) error {
 				res = "changed"
 			}
 		}
-		o.emit(fmt.Sprintf("accept-bp-exec %d %d %s %s %s", int(f.fn.Attributes), f.fn.LocalSize, b01(f.hasCall), b01(f.clob), res), "ok")
+		o.emit(fmt.Sprintf("accept-bp-exec %d %d %s %s %s", f.attrs, f.frame, b01(f.hasCall), b01(f.clob), res), "ok")
 		stats["exec_functions"]++
 		if f.clob {
 			stats["exec_clobbering_bp"]++
